@@ -1,13 +1,18 @@
-// Sections added per property (instruction tables etc.).
+// Sections added per property (instruction tables etc.).  Each lives in its own
+// translation unit harness/nv_dump_<name>.cpp and exports void dump_more_<name>().
 #ifndef NV_DUMP_MORE_H
 #define NV_DUMP_MORE_H
-#include "nv_dump_riscv.h"
-#include "nv_dump_cond.h"
-#include "nv_dump_symbols.h"
+void dump_more_cond();
+void dump_more_memory();
+void dump_more_msp430dis();
+void dump_more_riscv();
+void dump_more_symbols();
 static void dump_more()
 {
-  dump_more_symbols();
   dump_more_cond();
+  dump_more_memory();
+  dump_more_msp430dis();
   dump_more_riscv();
+  dump_more_symbols();
 }
 #endif
